@@ -145,3 +145,9 @@ def arch_job(triv, n=2, std='c++17'):
     name = 'arch-%s-N%d' % ('trivial' if triv else 'nontrivial', n) + ('' if std == 'c++17' else '-' + std.replace('+', 'p'))
     return Job(name, 'arch', {'VF_TRIV': triv, 'VF_N': n, 'VF_MAXCAP': 16}, elems=['%struct.El'], std=std, unwind=18, maxalloc=16, minalloc=n + 1 if n else 1,
                expect_witness=['normal return'], desc='non-assignable %s archetype: operations that only need construction (count ctor, emplace_back, push_back, reserve, copy/move ctor, shrink_to_fit, pop_back, clear)' % ('trivially copyable' if triv else 'non-trivial'))
+
+def std_two_job(op, elem, na, nb, capa, capb, **kw):
+    j = two_job(op, elem, na, nb, capa, capb, extra_defs={'VF_STDALLOC': 1}, tag='-stdalloc', **kw)
+    return j
+def std_ops_job(op, elem, n, cap, **kw):
+    return ops_job(op, elem, n, cap, extra_defs={'VF_STDALLOC': 1}, tag='-stdalloc', **kw)
